@@ -11,7 +11,7 @@
 //!     write  p v len sec ns  the file image of content version v in length class `len` (all images of
 //!                         one class have the SAME byte length: padding lives in a footer key/value
 //!                         entry) replaces path p — by rename of a temp file or in place — and its
-//!                         mtime is set to exactly (BASE_SEC+sec, ns) with utimensat; the stat tuple
+//!                         mtime is set to exactly (BASE_SEC+sec, NS_BASE+ns) with utimensat (forwards or backwards); the stat tuple
 //!                         is read back and asserted
 //!     query  p            a new ExecutionContext (or the history's long-lived one), register_parquet,
 //!                         then four statements that reach the Parquet file through the morsel
@@ -52,6 +52,8 @@ pub fn exe_path() -> PathBuf {
 pub const NULLV: i64 = -1073741824;
 /// Base of the model clock: model second k is BASE_SEC + k (a fixed instant in the past, never "now").
 pub const BASE_SEC: i64 = 1_700_000_000;
+/// Model nanosecond k is NS_BASE + k.
+pub const NS_BASE: i64 = 1000;
 
 /// s column of row x (three distinct low-cardinality values).
 pub fn s_of(x: i64) -> String {
@@ -357,7 +359,8 @@ fn run_history(rt: &tokio::runtime::Runtime, case: &Value, dir: &Path, images: &
                 let v = st["v"].as_i64().unwrap() as usize;
                 let c = st["len"].as_i64().unwrap() as usize;
                 let sec = BASE_SEC + st["sec"].as_i64().unwrap();
-                let nsec = st["ns"].as_i64().unwrap();
+                // model nanoseconds may be negative (rewrites with an EARLIER mtime): shift into 0..1e9
+                let nsec = NS_BASE + st["ns"].as_i64().unwrap();
                 replace_file(&path, &images.bytes[v - 1][c], sec, nsec, if path.exists() { repl } else { 0 });
                 obs.push(json!({"a": "write", "len": images.target[c]}));
             }
